@@ -82,6 +82,7 @@ class Stage:
     # stages that are functions of their arguments only (no per-call state is meant to live on the object): two
     # overlapping calls on ONE object - a user thread pool, the threaded scheduler - must not disturb each other
     reentrant = False
+    shift = 1  # how far the overlapping call's batch is shifted (the optical adapter pairs events on one geometry: 2)
     # single-precision inputs are compared at single-precision accuracy relative to the VALUE; stages whose outputs are
     # angles that pass through zero (geometry) amplify input rounding without bound in that measure: not compared
     float32_ok = True
@@ -312,6 +313,7 @@ class Spectrum(Stage):
 class Optical(Stage):
     name = "eas.__call__"
     max_n = 24
+    shift = 2
     reentrant = True
 
     def call_alt(self, obj, arrays, c):
@@ -566,9 +568,10 @@ def body_stage(case):
             r, want = [np.array(b_) for b_ in base], base
             # (the overlapping call gets OTHER events: the batch shifted by one event, so that for N = 1, too, the two
             # calls differ in every per-event quantity - position, cloud top, energy)
-            more = stage.inputs(case, n + 1) if n + 1 <= stage.max_n else None
+            sh_ = stage.shift
+            more = stage.inputs(case, n + sh_) if n + sh_ <= stage.max_n else None
             mine = tuple(np.array(a) for a in arrays)
-            theirs = tuple(np.array(a[1:]) for a in more) if more is not None else tuple(np.array(a[perm]) for a in arrays)
+            theirs = tuple(np.array(a[sh_:]) for a in more) if more is not None else tuple(np.array(a[perm]) for a in arrays)
             where = "one object" if which == "interleave" else "two objects of one configuration"
             if check_overlapping(lambda: stage.call(obj, mine, c), lambda: stage.call(obj_b, theirs, c), case.get("preempt", [3]), f"{stage.name} ({n} events, {where})"):
                 labels.add("overlapping_calls" if which == "interleave" else "overlapping_calls_two_objects")
@@ -645,11 +648,11 @@ def body_sweep(case):
     stage = STAGES[case["stage"]]
     base_case = dict(SWEEP_CASE)
     n = 1 if stage.name == "eas.__call__" else 3
-    more = stage.inputs(base_case, n + 1)
+    more = stage.inputs(base_case, n + stage.shift)
     with cut(f"{stage.name}: construct"):
         a = stage.make(base_case)
         b = a if case["mode"] == "one" else stage.make(base_case)
-    mine, theirs = tuple(np.array(x[:n]) for x in more), tuple(np.array(x[1:]) for x in more)  # other events
+    mine, theirs = tuple(np.array(x[:n]) for x in more), tuple(np.array(x[stage.shift :]) for x in more)  # other events
     c = base_case["c"]
     hits = sweep_overlapping(lambda: stage.call(a, mine, c), lambda: stage.call(b, theirs, c), case["k0"] + case.get("phase", 0), case["k1"], f"{stage.name} ({n} events, {'one object' if case['mode'] == 'one' else 'two objects of one configuration'})", stride=case.get("stride", 1))
     return {stage.name, case["mode"]} | ({"preempted"} if hits else set())
